@@ -24,7 +24,7 @@ be / reach":
 In-place operations:
   * `x op= e`, `x[i] = e`, `x[i] op= e`, `.sort()`, `.fill()` ...  -> `mutate`
     unless the target is known to be a list / dict / set (then `cmutate`),
-    followed by `absorb e` when the target may store `e` by reference.
+    followed by `absorb x e` when the target may store `e` by reference.
   * `.append/.extend/.remove/.pop/.update/.add/...`, `del x[k]`  -> `cmutate`.
 Control flow: `if` -> ite, `for`/`while` -> loop (trip count abstracted),
 `break`/`continue` -> the rest of the body becomes optional, `try` -> every
@@ -58,11 +58,6 @@ SKIP_FUNCS = {"core.AurelCore.__getitem__":
 CPUB_EXEMPT = {
     "reading.collect_overall_iterations": "docstring: returns 'the input dictionary with an added overall key' "
                                           "(helper of iterations(), which passes a dict it built itself)",
-    "reading.transform_vars_ET_to_aurel_groups": "KNOWN FINDING C02: removes the matched names from the caller's "
-                                                 "list (direct public call only; iterations() passes its own list)",
-    "reading.read_ET_group_or_var": "KNOWN FINDING C02: `variables[vi] = ...; variables += ...` on the caller's list "
-                                    "when one name matches several datasets (direct public call with a list only; "
-                                    "read_ET_variables passes tuple keys of its own dict)",
     "reading.saveprint": "writes to the file object it is given (that is its purpose)",
 }
 # Save/read functions for which the deep container claim (nothing that existed
@@ -78,8 +73,6 @@ NONSTRICT = {
     "reading.join_chunks": "regroups the caller's chunk arrays into nested dicts of its own; a subscript of those "
                            "cannot be told from the caller's dict",
     "reading.collect_overall_iterations": "updates its argument in place by design (see CPUB_EXEMPT)",
-    "reading.read_ET_group_or_var": "KNOWN FINDING C02 (see CPUB_EXEMPT)",
-    "reading.transform_vars_ET_to_aurel_groups": "KNOWN FINDING C02 (see CPUB_EXEMPT)",
 }
 # Kinds of sub-expressions the translator cannot infer (what kind of object a nested subscript denotes).
 # (function, source text of the expression) -> kind.  Each entry is a fact about the code as it is now.
@@ -246,6 +239,9 @@ class FuncInfo:
         self.vararg = a.vararg.arg if a.vararg else None
         self.kwarg = a.kwarg.arg if a.kwarg else None
         self.params = pos + self.kwonly + ([self.vararg] if self.vararg else []) + ([self.kwarg] if self.kwarg else [])
+        for d in list(a.defaults) + [k for k in a.kw_defaults if k is not None]:
+            if isinstance(d, (ast.List, ast.Dict, ast.Set, ast.Call, ast.ListComp, ast.DictComp)):
+                raise TranslationError("%s: mutable default argument (shared between calls) is not modelled" % qname)
         self.fparams = {}    # param name -> set of function qnames it may hold
         self.body_ir = None
         self.calls = set()
@@ -826,6 +822,13 @@ class FT:
         if t in (ast.ListComp, ast.GeneratorExp, ast.SetComp, ast.DictComp):
             return self.comprehension(n)
         if t is ast.Lambda:
+            # a local lambda is not analysed as a function: accept it only if it cannot change anything
+            for sub in ast.walk(n.body):
+                if isinstance(sub, ast.NamedExpr) or (
+                        isinstance(sub, ast.Call) and isinstance(sub.func, ast.Attribute)
+                        and sub.func.attr in (M_MUT_ARRAY | M_MUT_CONT | M_MUT_CONT_ABSORB | {"write", "writelines"})
+                        and not (dotted(sub.func) or [""])[0] == "sys"):
+                    self.err(n, "lambda with a possibly mutating call")
             return IMM, K_FUNC
         if t is ast.Starred:
             return self.viewof([self.expr(n.value)[0]])
@@ -1146,6 +1149,10 @@ class FT:
                             return self.fresh([], K_ARR)
                         return self.viewof(self.all_arg_vars(pos, star, kws, spreads), K_ARR)
                     pos, star, kws, spreads = self.eval_args(n)
+                    if "out" in kws or "where" in kws:
+                        self.err(n, "numpy call with out= / where= writes into an existing array: not classified")
+                    if name == "array" and "copy" in kws:
+                        return self.viewof([v for v, _ in pos], K_ARR)      # np.array(x, copy=False) may alias x
                     if name in NP_FRESH:
                         return self.fresh([], K_ARR)
                     if name in NP_VIEW0:
@@ -1221,6 +1228,8 @@ class FT:
                 if m in ("split", "rsplit", "splitlines", "findall"):
                     return self.fresh([], K_LIST)
                 return IMM, K_IMM
+            if m == "astype" and "copy" in kws:
+                return self.viewof([rv], K_ARR)              # astype(..., copy=False) may return the receiver
             if m in M_FRESH:
                 return self.fresh([], K_LIST if m in ("split", "rsplit", "splitlines", "readlines", "tolist")
                                   else (K_ARR if rk in (K_ARR, "arr?") else "arr?"))
